@@ -148,6 +148,17 @@ func c19Pool(r *Run, t *tape.Tape) []c19Item {
 			r.Probe("pool-holds-cose-sign-with-up-to-12-signers")
 		}
 	}
+	if t.Bool(1, 4, "c19.pool.algonly") {
+		// the commonest protected bucket there is - {1: alg} and nothing else -
+		// in several of its values, of equal length, as stand-alone items: read
+		// one after the other into the same buffer they differ in one octet
+		algs := [][]byte{{0x43, 0xa1, 0x01, 0x26}, {0x43, 0xa1, 0x01, 0x27}, {0x43, 0xa1, 0x01, 0x40}, {0x43, 0xa1, 0x01, 0x20},
+			{0x44, 0xa1, 0x01, 0x38, 0x22}, {0x44, 0xa1, 0x01, 0x38, 0x23}, {0x44, 0xa1, 0x01, 0x38, 0x24}, {0x44, 0xa1, 0x01, 0x38, 0x25}, {0x44, 0xa1, 0x01, 0x38, 0x26}}
+		for i, k := 0, 2+t.Choose(3, "c19.pool.algonly.n"); i < k; i++ {
+			pool = append(pool, c19Item{append([]byte{}, algs[t.Choose(len(algs), "c19.pool.algonly.v")]...), "ProtectedHeader"})
+		}
+		r.Probe("pool-holds-alg-only-protected-buckets")
+	}
 	n := len(pool)
 	for i := 0; i < n && i < 6; i++ {
 		src := pool[t.Choose(n, "c19.pool.src")]
@@ -344,6 +355,10 @@ func scenarioC19(r *Run) {
 	}
 	if t.Bool(1, 12, "c19.concurrent") {
 		c19Concurrent(r, t)
+		return
+	}
+	if t.Bool(1, 10, "c19.algstream") {
+		c19AlgStream(r, t)
 		return
 	}
 	pool := c19Pool(r, t)
@@ -555,6 +570,39 @@ func scenarioC19(r *Run) {
 			verdicts[vk] = err == nil
 			r.Op("DECODE", "%s <- buffer %d (%dB): %s", d.dec.Name, bi, len(input), errTag(err))
 			if err == nil {
+				// the decoded algorithm is the one THESE bytes name (judged by
+				// the reference parser, not by another decode of the library: a
+				// process-wide memory of earlier inputs misleads both alike)
+				var protRaw []byte
+				var libProt cose.ProtectedHeader
+				switch v := d.val.(type) {
+				case *cose.ProtectedHeader:
+					protRaw, libProt = pristine, *v
+				case *cose.Sign1Message:
+					protRaw, libProt = v.Headers.RawProtected, v.Headers.Protected
+				case *cose.UntaggedSign1Message:
+					protRaw, libProt = v.Headers.RawProtected, v.Headers.Protected
+				case *cose.Signature:
+					protRaw, libProt = v.Headers.RawProtected, v.Headers.Protected
+				case *cose.Countersignature:
+					protRaw, libProt = v.Headers.RawProtected, v.Headers.Protected
+				}
+				if len(protRaw) > 0 {
+					if wa, _, perr := protAlgOnWire(protRaw); perr == nil && untagged55799(protRaw) {
+						la, lerr := libProt.Algorithm()
+						r.Check()
+						if wa == nil && lerr == nil {
+							r.Fail("decoded-header-not-a-function-of-its-bytes/"+d.dec.Name, "the protected bytes carry no alg, the decoded header answers alg %d\nprotected: %x", int64(la), protRaw)
+							return
+						}
+						if wa != nil && wa.IsInt() {
+							if v, ok := wa.Int64(); ok && (lerr != nil || int64(la) != v) {
+								r.Fail("decoded-header-not-a-function-of-its-bytes/"+d.dec.Name, "the protected bytes say alg %d, the decoded header answers (%d, %v)\nprotected: %x", v, int64(la), lerr, protRaw)
+								return
+							}
+						}
+					}
+				}
 				if d.decodes > 0 || d.failures > 0 {
 					interesting = true
 					r.Fired("dest.reuse.ok")
@@ -742,4 +790,61 @@ func c19Mutate(t *tape.Tape, v any) bool {
 		return false
 	}
 	return true
+}
+
+// untagged55799: no tag 55799 anywhere in the item (known findings K1/K2: the
+// CBOR library reads through that tag, the reference does not).
+func untagged55799(b []byte) bool {
+	_, n := strip55799(b)
+	return n == 0
+}
+
+// c19AlgStream: a receiver reads a stream of stand-alone protected buckets -
+// the commonest one there is, {1: alg}, in changing values - one after the
+// other into ONE network buffer and decodes each from there (into a fresh or
+// into the same header variable).  What each decode returns is what the
+// buffer holds at that moment, judged by the reference parser.
+func c19AlgStream(r *Run, t *tape.Tape) {
+	algs := [][]byte{{0x43, 0xa1, 0x01, 0x26}, {0x43, 0xa1, 0x01, 0x27}, {0x43, 0xa1, 0x01, 0x20}, {0x43, 0xa1, 0x01, 0x40}, {0x43, 0xa1, 0x04, 0x26},
+		{0x44, 0xa1, 0x01, 0x38, 0x22}, {0x44, 0xa1, 0x01, 0x38, 0x23}, {0x44, 0xa1, 0x01, 0x38, 0x24}, {0x44, 0xa1, 0x01, 0x38, 0x25}, {0x44, 0xa1, 0x01, 0x38, 0x26}}
+	buf := make([]byte, 0, 64)
+	var reused cose.ProtectedHeader
+	r.Outcome("alg-stream")
+	for i, n := 0, 2+t.Choose(5, "c19.algstream.n"); i < n; i++ {
+		src := algs[t.Choose(len(algs), "c19.algstream.v")]
+		buf = append(buf[:0], src...)
+		dst := &reused
+		if t.Bool(1, 2, "c19.algstream.fresh") {
+			dst = new(cose.ProtectedHeader)
+		}
+		var err error
+		r.Lib(func() { err = dst.UnmarshalCBOR(buf) })
+		r.Op("DECODE", "ProtectedHeader <- the one buffer (%x): %s", src, errTag(err))
+		r.Fired("buf.reuse")
+		r.Check()
+		wa, _, perr := protAlgOnWire(src)
+		if perr != nil {
+			continue
+		}
+		valid := refcose.WellFormedProtected(src) == nil
+		if (err == nil) != valid {
+			r.Fail("decode-verdict-depends-on-buffer-history/ProtectedHeader", "bucket %x read into a buffer that held other buckets before: accepted=%v, the reference says well-formed=%v", src, err == nil, valid)
+			return
+		}
+		if err != nil {
+			continue
+		}
+		la, lerr := dst.Algorithm()
+		switch {
+		case wa == nil && lerr == nil:
+			r.Fail("decoded-header-not-a-function-of-its-bytes/ProtectedHeader", "bucket %x carries no alg; decoded from a buffer that held other buckets before, the header answers alg %d", src, int64(la))
+			return
+		case wa != nil && wa.IsInt():
+			if v, ok := wa.Int64(); ok && (lerr != nil || int64(la) != v) {
+				r.Fail("decoded-header-not-a-function-of-its-bytes/ProtectedHeader", "bucket %x says alg %d; decoded from a buffer that held other buckets before, the header answers (%d, %v)", src, v, int64(la), lerr)
+				return
+			}
+		}
+	}
+	r.Probe("alg-only-buckets-streamed-through-one-buffer")
 }
